@@ -118,7 +118,9 @@ def keep_layout(M):
 
 def community_vectors(n):
     base = np.array(([1, 1, 2, 2, 3, 3, 3])[:n]) if n > 3 else np.array([1, 2, 2][:n])
-    return {'contiguous': base, 'noncontiguous': base * 10 + 7, 'zero_based': base - 1}
+    # ... and as the documented "Nx1" column, a 1xN row and a float vector (shape and dtype are part of the snapshot)
+    return {'contiguous': base, 'noncontiguous': base * 10 + 7, 'zero_based': base - 1,
+            'column': base.reshape(-1, 1).copy(), 'row': base.reshape(1, -1).copy(), 'float': base.astype(float)}
 
 
 FLAG_VALUES = {
@@ -264,10 +266,10 @@ def sp_pairs(pairs):
 
 
 SPECIAL = {
-    'agreement': sp_pairs(lambda mn, M: [('ci', [np.array([cv for cv in community_vectors(len(M)).values()]).T], {})]),
-    'agreement_weighted': sp_pairs(lambda mn, M: [('ci', [np.array([cv for cv in community_vectors(len(M)).values()]),
+    'agreement': sp_pairs(lambda mn, M: [('ci', [np.array([cv for cv in community_vectors(len(M)).values() if cv.ndim == 1 and cv.dtype.kind == 'i']).T], {})]),
+    'agreement_weighted': sp_pairs(lambda mn, M: [('ci', [np.array([cv for cv in community_vectors(len(M)).values() if cv.ndim == 1 and cv.dtype.kind == 'i']),
                                                             np.array([1.0, 2.0, 3.0])], {})]),
-    'dummyvar': sp_pairs(lambda mn, M: [('cis', [np.array([cv for cv in community_vectors(len(M)).values()]).T], {})]),
+    'dummyvar': sp_pairs(lambda mn, M: [('cis', [np.array([cv for cv in community_vectors(len(M)).values() if cv.ndim == 1 and cv.dtype.kind == 'i']).T], {})]),
     'ci2ls': sp_pairs(lambda mn, M: [(k, [v.copy()], {}) for k, v in community_vectors(len(M)).items()]),
     'ls2ci': sp_pairs(lambda mn, M: [('ls', [[[0, 1], [2, 3, 4]]], {'zeroindexed': z}) for z in (False, True)]),
     'partition_distance': sp_pairs(lambda mn, M: [(k, [v.copy(), community_vectors(len(M))['contiguous'][::-1].copy()], {})
